@@ -290,6 +290,27 @@ def value_cases(run, descs):
             elif run.violation(case, problem):
                 return texts
             continue
+        # the same object asked again after a call with a locale override: the plain encoding still carries the value's own content
+        if "text" in impl and v["t"] in ("LocalizedText", "EngineeringUnits", "ExtensionObject", "Variant", "ListOf"):
+            try:
+                obj = build(v)
+                try:
+                    obj.json_encode(input_locale="zz-ZZ")
+                except TypeError:
+                    obj = None
+                if obj is not None:
+                    again = obj.json_encode()
+                    run.count("asked-again-after-locale-override")
+                    if again != impl["text"]:
+                        shape(v, strict_loads(again))
+            except (ValueError, NotJson, AssertionError, KeyError, TypeError, ArithmeticError) as e:
+                if fid and run.known(fid):
+                    run.count("known:" + fid)
+                elif run.violation(case, {"what": "json_encode() after an earlier json_encode(input_locale=...) on the same object no longer carries the value's own content",
+                                          "impl": str(locals().get("again"))[:400], "first": impl["text"][:400], "error": repr(e)[:200],
+                                          "call": "<value>.json_encode(input_locale='zz-ZZ'); <value>.json_encode()"}):
+                    return texts
+                continue
         # correspondence (raw XML payloads differ in layout only)
         if sup and v["t"] not in ("XmlElement", "ExtensionObject") and not (v["t"] == "Variant" and v["v"]["t"] in ("XmlElement",)):
             m = {k: mo[k] for k in mo if k in ("text", "none", "err")}
